@@ -49,7 +49,9 @@ def strategy(tier):
         c = {"model": m, "setup": su, "grid_rel": [S.sig(v, 6) for v in rel],
              "grid_type": draw(st.sampled_from(["list", "tuple", "array"])),
              "exact": draw(st.sampled_from([True, True, True, False])),
-             "iters": draw(st.integers(1, 2))}
+             "iters": draw(st.integers(1, 2)),
+             # any truthy value selects the exact algorithm: the literal True, 1, or a NumPy bool from a comparison
+             "exact_spelling": draw(st.sampled_from(["True", "True", "1", "np.bool_"]))}
         if draw(st.integers(0, 2)) == 0:
             # magnitudes carried by parameters, and a SECOND gridded call on the same object after the parameters (incl. those
             # magnitudes) were re-assigned: the second output must follow the model's current state-change matrix
@@ -90,7 +92,14 @@ def _check_call(case, rec, model, order, su, grid_type, tag):
         stoch.limit_steps(model, 1200000 if exact else 120000)
     try:
         np.random.seed(su["np_seed"])
-        out = stoch.simulate("C15", key, case, model.solve_stochast, g_arg, case["iters"], exact=exact, full_output=True, parallel=False)
+        ex_arg = exact
+        if exact and case.get("exact_spelling") == "1":
+            ex_arg = 1
+        elif exact and case.get("exact_spelling") == "np.bool_":
+            ex_arg = np.bool_(True)
+        if exact:
+            rec.label("exact-flag:" + case.get("exact_spelling", "True"))
+        out = stoch.simulate("C15", key, case, model.solve_stochast, g_arg, case["iters"], exact=ex_arg, full_output=True, parallel=False)
         raw = stoch.simulate("C15", key + "/raw", case, stoch.run_raw, model, float(grid[-1]), case["iters"], exact, su["np_seed"])
     except stoch.StepBudget:
         raise Inconclusive("step budget")
